@@ -686,6 +686,7 @@ func (p *Policy) BlockAccountInternalDeferrable(ic *interop.Context, hash util.U
 			cache.blockedAccounts = append(cache.blockedAccounts[:i+1], cache.blockedAccounts[i:]...)
 			cache.blockedAccounts[i] = hash
 		}
+		p.invalidateNewEpochCache(ic)
 		handleRes(true)
 	}
 
@@ -715,7 +716,17 @@ func (p *Policy) unblockAccount(ic *interop.Context, args []stackitem.Item) stac
 	ic.DAO.DeleteStorageItem(p.ID, key)
 	cache := ic.DAO.GetRWCache(p.ID).(*PolicyCache)
 	cache.blockedAccounts = append(cache.blockedAccounts[:i], cache.blockedAccounts[i+1:]...)
+	p.invalidateNewEpochCache(ic)
 	return stackitem.NewBool(true)
+}
+
+// invalidateNewEpochCache makes NEO recalculate its cached committee and
+// validators of the next epoch: candidates with blocked accounts are not
+// eligible, so the list of blocked accounts is an input of that calculation.
+func (p *Policy) invalidateNewEpochCache(ic *interop.Context) {
+	if neoCache, ok := ic.DAO.GetRWCache(p.NEO.Metadata().ID).(*NeoCache); ok {
+		neoCache.votesChanged = true
+	}
 }
 
 func (p *Policy) getMaxValidUntilBlockIncrement(ic *interop.Context, _ []stackitem.Item) stackitem.Item {
